@@ -866,9 +866,18 @@ fn drive(
         }
         let key = loop {
             match sched.pop_front() {
+                // a scheduled tick: let real time pass (a retry delay elapses)
+                Some(k) if k == "@sleep" => {
+                    thread::sleep(Duration::from_millis(case.schedule.sleep_ms));
+                    rec("slept", json!({"ms":case.schedule.sleep_ms}));
+                }
                 Some(k) if waiting.contains(&k) => break k,
-                Some(_) => {
+                Some(k) => {
                     diverged = true;
+                    rec(
+                        "sched_diverged",
+                        json!({"wanted": k, "waiting": waiting.clone()}),
+                    );
                     sched.clear();
                 }
                 None => {
